@@ -124,7 +124,10 @@ pub fn evaluate_crash_images(e: &mut Exec) {
             if mode == TailMode::Minimal && allowed.len() == 1 {
                 e.out.probe("minimal_image_after_commit_returned");
             }
-            let do_writer = thorough_writer_step || (h % 8 == 0);
+            // every recovered writer leaves a few finished tasks behind whose stacks the runtime keeps
+            // until the execution ends: bound the number of writer steps per run
+            let cap = if thorough_writer_step { 400 } else { 150 };
+            let do_writer = writer_step_count < cap && (thorough_writer_step || (h % 8 == 0));
             if do_writer {
                 writer_step_count += 1;
             }
